@@ -186,12 +186,16 @@ theorem heapOK_empty : HeapOK {} := by
 theorem HeapOK.uniqueIds {h : Heap} (ok : HeapOK h) : UniqueIds (· ∈ h.objs) :=
   fun f g hf hg e => ok.uniq f hf g hg e
 
-theorem Known.cons {h : Heap} {f : F} (hk : Known h f) (x : F) (n : Nat) :
-    Known { h with next := n, objs := x :: h.objs } f := by
+theorem Known.of_objs {h h' : Heap} {f : F} (hk : Known h f) (hs : ∀ g ∈ h.objs, g ∈ h'.objs) :
+    Known h' f := by
   rcases hk with h | h | h
   · exact Or.inl h
   · exact Or.inr (Or.inl h)
-  · exact Or.inr (Or.inr (List.mem_cons_of_mem _ h))
+  · exact Or.inr (Or.inr (hs _ h))
+
+theorem Known.cons {h : Heap} {f : F} (hk : Known h f) (x : F) (n : Nat) :
+    Known { h with next := n, objs := x :: h.objs } f :=
+  hk.of_objs fun _ hg => List.mem_cons_of_mem _ hg
 
 /-- allocating a fresh object whose children are live keeps the invariant -/
 theorem HeapOK.alloc {h : Heap} (ok : HeapOK h) (x : F) (hid : x.id = h.next)
@@ -332,5 +336,287 @@ theorem createOr_spec {h : Heap} (ok : HeapOK h) (fs : List F) (hfs : ∀ x ∈ 
     · intro ρ
       simp only [eval_orL]
       exact hev ρ
+
+/-! ### the operators -/
+
+def F.isConst : F → Bool
+  | .always => true
+  | .never => true
+  | _ => false
+
+theorem Known.mem {h : Heap} {f : F} (hk : Known h f) (hc : f.isConst = false) : f ∈ h.objs := by
+  rcases hk with rfl | rfl | hm
+  · simp [F.isConst] at hc
+  · simp [F.isConst] at hc
+  · exact hm
+
+theorem fAnd_hit (h : Heap) (a b r : F) (ha : a.isConst = false) (hb : b.isConst = false)
+    (hl : lookup2 h.andC a.id b.id = some r) : fAnd h a b = (h, r) := by
+  cases a <;> cases b <;> simp_all [fAnd, F.isConst]
+
+theorem fAnd_miss (h : Heap) (a b : F) (ha : a.isConst = false) (hb : b.isConst = false)
+    (hl : lookup2 h.andC a.id b.id = none) :
+    fAnd h a b = ({ (createAnd h [a, b]).1 with andC := ((a.id, b.id), (createAnd h [a, b]).2) ::
+                    (createAnd h [a, b]).1.andC }, (createAnd h [a, b]).2) := by
+  cases a <;> cases b <;> simp_all [fAnd, F.isConst]
+
+theorem fOr_hit (h : Heap) (a b r : F) (ha : a.isConst = false) (hb : b.isConst = false)
+    (hl : lookup2 h.orC a.id b.id = some r) : fOr h a b = (h, r) := by
+  cases a <;> cases b <;> simp_all [fOr, F.isConst]
+
+theorem fOr_miss (h : Heap) (a b : F) (ha : a.isConst = false) (hb : b.isConst = false)
+    (hl : lookup2 h.orC a.id b.id = none) :
+    fOr h a b = ({ (createOr h [a, b]).1 with orC := ((a.id, b.id), (createOr h [a, b]).2) ::
+                    (createOr h [a, b]).1.orC }, (createOr h [a, b]).2) := by
+  cases a <;> cases b <;> simp_all [fOr, F.isConst]
+
+theorem fInv_hit (h : Heap) (a r : F) (ha : a.isConst = false)
+    (hl : lookup1 h.invC a.id = some r) : fInv h a = (h, r) := by
+  cases a <;> simp_all [fInv, F.isConst]
+
+theorem fInv_miss (h : Heap) (a : F) (ha : a.isConst = false) (hl : lookup1 h.invC a.id = none) :
+    fInv h a = ({ h with next := h.next + 1, invC := (a.id, F.inv h.next a) :: h.invC,
+                          objs := F.inv h.next a :: h.objs }, F.inv h.next a) := by
+  cases a <;> simp_all [fInv, F.isConst]
+
+/-- **`a & b` means conjunction**, and the heap stays well formed -/
+theorem fAnd_spec {h : Heap} (ok : HeapOK h) (a b : F) (ha : Known h a) (hb : Known h b) :
+    OpOK h (fAnd h a b) ∧ ∀ ρ, (fAnd h a b).2.eval ρ = (a.eval ρ && b.eval ρ) := by
+  by_cases hca : a.isConst = true
+  · cases a <;> simp [F.isConst] at hca
+    · exact ⟨⟨ok, hb, fun _ hf => hf⟩, by simp [fAnd]⟩
+    · exact ⟨⟨ok, ha, fun _ hf => hf⟩, by simp [fAnd]⟩
+  have hca : a.isConst = false := by simpa using hca
+  by_cases hcb : b.isConst = true
+  · cases b <;> simp [F.isConst] at hcb
+    · have : fAnd h a .always = (h, a) := by cases a <;> simp_all [fAnd, F.isConst]
+      rw [this]; exact ⟨⟨ok, ha, fun _ hf => hf⟩, by simp⟩
+    · have : fAnd h a .never = (h, .never) := by cases a <;> simp_all [fAnd, F.isConst]
+      rw [this]; exact ⟨⟨ok, hb, fun _ hf => hf⟩, by simp⟩
+  have hcb : b.isConst = false := by simpa using hcb
+  have ham := ha.mem hca
+  have hbm := hb.mem hcb
+  cases hl : lookup2 h.andC a.id b.id with
+  | some r =>
+    rw [fAnd_hit h a b r hca hcb hl]
+    obtain ⟨_, _, k, e⟩ := ok.andOK _ _ r hl
+    exact ⟨⟨ok, k, fun _ hf => hf⟩, e a ham b hbm rfl rfl⟩
+  | none =>
+    rw [fAnd_miss h a b hca hcb hl]
+    obtain ⟨⟨ok', k', m'⟩, c1, c2, c3, c4, ev⟩ := createAnd_spec ok [a, b] (by
+      intro x hx; simp at hx; rcases hx with rfl | rfl <;> assumption)
+    have ham' := (m' a ha).mem hca
+    have hbm' := (m' b hb).mem hcb
+    refine ⟨⟨?_, k', m'⟩, ?_⟩
+    · constructor
+      · exact ok'.next2
+      · exact ok'.idlt
+      · exact ok'.uniq
+      · exact ok'.closedA
+      · exact ok'.closedO
+      · intro i j r hlk
+        simp only [lookup2] at hlk
+        split at hlk
+        · next hij =>
+          simp at hij hlk
+          obtain ⟨hi, hj⟩ := hij
+          subst hlk
+          have hia := (ok'.idlt a ham').2
+          have hjb := (ok'.idlt b hbm').2
+          refine ⟨?_, ?_, k', ?_⟩
+          · show i < (createAnd h [a, b]).1.next; omega
+          · show j < (createAnd h [a, b]).1.next; omega
+          intro a' ha' b' hb' ea eb ρ
+          have e1 : a' = a := ok'.uniq a' ha' a ham' (by omega)
+          have e2 : b' = b := ok'.uniq b' hb' b hbm' (by omega)
+          rw [ev ρ, e1, e2]; simp [evalAll]
+        · exact ok'.andOK i j r hlk
+      · exact ok'.orOK
+      · exact ok'.invOK
+    · intro ρ; rw [ev ρ]; simp [evalAll]
+
+/-- **`a | b` means disjunction** -/
+theorem fOr_spec {h : Heap} (ok : HeapOK h) (a b : F) (ha : Known h a) (hb : Known h b) :
+    OpOK h (fOr h a b) ∧ ∀ ρ, (fOr h a b).2.eval ρ = (a.eval ρ || b.eval ρ) := by
+  by_cases hca : a.isConst = true
+  · cases a <;> simp [F.isConst] at hca
+    · exact ⟨⟨ok, ha, fun _ hf => hf⟩, by simp [fOr]⟩
+    · exact ⟨⟨ok, hb, fun _ hf => hf⟩, by simp [fOr]⟩
+  have hca : a.isConst = false := by simpa using hca
+  by_cases hcb : b.isConst = true
+  · cases b <;> simp [F.isConst] at hcb
+    · have : fOr h a .always = (h, .always) := by cases a <;> simp_all [fOr, F.isConst]
+      rw [this]; exact ⟨⟨ok, hb, fun _ hf => hf⟩, by simp⟩
+    · have : fOr h a .never = (h, a) := by cases a <;> simp_all [fOr, F.isConst]
+      rw [this]; exact ⟨⟨ok, ha, fun _ hf => hf⟩, by simp⟩
+  have hcb : b.isConst = false := by simpa using hcb
+  have ham := ha.mem hca
+  have hbm := hb.mem hcb
+  cases hl : lookup2 h.orC a.id b.id with
+  | some r =>
+    rw [fOr_hit h a b r hca hcb hl]
+    obtain ⟨_, _, k, e⟩ := ok.orOK _ _ r hl
+    exact ⟨⟨ok, k, fun _ hf => hf⟩, e a ham b hbm rfl rfl⟩
+  | none =>
+    rw [fOr_miss h a b hca hcb hl]
+    obtain ⟨⟨ok', k', m'⟩, c1, c2, c3, c4, ev⟩ := createOr_spec ok [a, b] (by
+      intro x hx; simp at hx; rcases hx with rfl | rfl <;> assumption)
+    have ham' := (m' a ha).mem hca
+    have hbm' := (m' b hb).mem hcb
+    refine ⟨⟨?_, k', m'⟩, ?_⟩
+    · constructor
+      · exact ok'.next2
+      · exact ok'.idlt
+      · exact ok'.uniq
+      · exact ok'.closedA
+      · exact ok'.closedO
+      · exact ok'.andOK
+      · intro i j r hlk
+        simp only [lookup2] at hlk
+        split at hlk
+        · next hij =>
+          simp at hij hlk
+          obtain ⟨hi, hj⟩ := hij
+          subst hlk
+          have hia := (ok'.idlt a ham').2
+          have hjb := (ok'.idlt b hbm').2
+          refine ⟨?_, ?_, k', ?_⟩
+          · show i < (createOr h [a, b]).1.next; omega
+          · show j < (createOr h [a, b]).1.next; omega
+          intro a' ha' b' hb' ea eb ρ
+          have e1 : a' = a := ok'.uniq a' ha' a ham' (by omega)
+          have e2 : b' = b := ok'.uniq b' hb' b hbm' (by omega)
+          rw [ev ρ, e1, e2]; simp [evalAny]
+        · exact ok'.orOK i j r hlk
+      · exact ok'.invOK
+    · intro ρ; rw [ev ρ]; simp [evalAny]
+
+/-- **`~a` means negation** -/
+theorem fInv_spec {h : Heap} (ok : HeapOK h) (a : F) (ha : Known h a) :
+    OpOK h (fInv h a) ∧ ∀ ρ, (fInv h a).2.eval ρ = !(a.eval ρ) := by
+  by_cases hca : a.isConst = true
+  · cases a <;> simp [F.isConst] at hca
+    · exact ⟨⟨ok, Or.inr (Or.inl rfl), fun _ hf => hf⟩, by simp [fInv]⟩
+    · exact ⟨⟨ok, Or.inl rfl, fun _ hf => hf⟩, by simp [fInv]⟩
+  have hca : a.isConst = false := by simpa using hca
+  have ham := ha.mem hca
+  cases hl : lookup1 h.invC a.id with
+  | some r =>
+    rw [fInv_hit h a r hca hl]
+    obtain ⟨_, k, e⟩ := ok.invOK _ r hl
+    exact ⟨⟨ok, k, fun _ hf => hf⟩, e a ham rfl⟩
+  | none =>
+    rw [fInv_miss h a hca hl]
+    have ok' := ok.alloc (F.inv h.next a) rfl (by intro i l e; cases e) (by intro i l e; cases e)
+    refine ⟨⟨?_, Or.inr (Or.inr (List.mem_cons_self ..)),
+      fun f hf => hf.of_objs fun _ hg => List.mem_cons_of_mem _ hg⟩, by simp⟩
+    constructor
+    · exact ok'.next2
+    · exact ok'.idlt
+    · exact ok'.uniq
+    · exact ok'.closedA
+    · exact ok'.closedO
+    · exact ok'.andOK
+    · exact ok'.orOK
+    · intro i r hlk
+      simp only [lookup1] at hlk
+      split at hlk
+      · next hi =>
+        simp at hi hlk
+        subst hlk
+        refine ⟨by have := (ok.idlt a ham).2; show i < h.next + 1; omega,
+          Or.inr (Or.inr (List.mem_cons_self ..)), ?_⟩
+        intro a' ha' ea ρ
+        have e1 : a' = a := ok'.uniq a' ha' a (List.mem_cons_of_mem _ ham) (by omega)
+        rw [e1]; simp
+      · exact ok'.invOK i r hlk
+
+/-- `Condition(func)` allocates a fresh object whose value is the condition variable -/
+theorem mkCond_spec {h : Heap} (ok : HeapOK h) (v : Nat) :
+    OpOK h (mkCond h v) ∧ ∀ ρ, (mkCond h v).2.eval ρ = ρ v := by
+  refine ⟨⟨?_, Or.inr (Or.inr (List.mem_cons_self ..)), fun f hf => hf.cons _ _⟩, by simp [mkCond, F.eval]⟩
+  exact ok.alloc (.cond h.next v) rfl (by intro i l e; cases e) (by intro i l e; cases e)
+
+theorem toFilter_spec (h : Heap) (b : Bool) : Known h (toFilter b) ∧ ∀ ρ, (toFilter b).eval ρ = b := by
+  cases b <;> simp [toFilter, Known]
+
+/-! ### every expression built with the operators means what it says -/
+
+/-- expressions over condition variables, as written by a user: `c`, `True/False`, `&`, `|`, `~` -/
+inductive Expr where
+  | cond (v : Nat)
+  | const (b : Bool)
+  | and (a b : Expr)
+  | or (a b : Expr)
+  | not (a : Expr)
+
+def Expr.sem (ρ : Nat → Bool) : Expr → Bool
+  | .cond v => ρ v
+  | .const b => b
+  | .and a b => a.sem ρ && b.sem ρ
+  | .or a b => a.sem ρ || b.sem ρ
+  | .not a => !(a.sem ρ)
+
+/-- build the filter object for an expression with the Python operators -/
+def Expr.build (h : Heap) : Expr → Heap × F
+  | .cond v => mkCond h v
+  | .const b => (h, toFilter b)
+  | .and a b =>
+    let r1 := a.build h
+    let r2 := b.build r1.1
+    fAnd r2.1 r1.2 r2.2
+  | .or a b =>
+    let r1 := a.build h
+    let r2 := b.build r1.1
+    fOr r2.1 r1.2 r2.2
+  | .not a =>
+    let r1 := a.build h
+    fInv r1.1 r1.2
+
+/-- **filter_sem**: in any well-formed heap (whatever has been memoised before), the object
+    built for an arbitrary boolean expression evaluates to the value of the expression. -/
+theorem filter_sem {h : Heap} (ok : HeapOK h) (e : Expr) :
+    OpOK h (e.build h) ∧ ∀ ρ, (e.build h).2.eval ρ = e.sem ρ := by
+  induction e generalizing h with
+  | cond v => exact mkCond_spec ok v
+  | const b => exact ⟨⟨ok, (toFilter_spec h b).1, fun _ hf => hf⟩, (toFilter_spec h b).2⟩
+  | and a b iha ihb =>
+    obtain ⟨⟨o1, k1, m1⟩, e1⟩ := iha ok
+    obtain ⟨⟨o2, k2, m2⟩, e2⟩ := ihb o1
+    obtain ⟨⟨o3, k3, m3⟩, e3⟩ := fAnd_spec o2 _ _ (m2 _ k1) k2
+    exact ⟨⟨o3, k3, fun f hf => m3 f (m2 f (m1 f hf))⟩, fun ρ => by
+      simp only [Expr.build, Expr.sem, e3 ρ, e1 ρ, e2 ρ]⟩
+  | or a b iha ihb =>
+    obtain ⟨⟨o1, k1, m1⟩, e1⟩ := iha ok
+    obtain ⟨⟨o2, k2, m2⟩, e2⟩ := ihb o1
+    obtain ⟨⟨o3, k3, m3⟩, e3⟩ := fOr_spec o2 _ _ (m2 _ k1) k2
+    exact ⟨⟨o3, k3, fun f hf => m3 f (m2 f (m1 f hf))⟩, fun ρ => by
+      simp only [Expr.build, Expr.sem, e3 ρ, e1 ρ, e2 ρ]⟩
+  | not a iha =>
+    obtain ⟨⟨o1, k1, m1⟩, e1⟩ := iha ok
+    obtain ⟨⟨o3, k3, m3⟩, e3⟩ := fInv_spec o1 _ k1
+    exact ⟨⟨o3, k3, fun f hf => m3 f (m1 f hf)⟩, fun ρ => by
+      simp only [Expr.build, Expr.sem, e3 ρ, e1 ρ]⟩
+
+/-- the list length of an `_AndList` (0 for anything else) -/
+def F.arity : F → Nat
+  | .andL _ l => l.length
+  | .orL _ l => l.length
+  | _ => 0
+
+/-- non-vacuity: `(c0 & c1) & c1` collapses by duplicate removal to a *new* two-element list, a
+    second `c0 & c1` is served from the memo table (same object id 4) -/
+example : ((fAnd (mkCond (mkCond {} 0).1 1).1 (mkCond {} 0).2 (mkCond (mkCond {} 0).1 1).2).2.id = 4) := by
+  decide
+example :
+    (fAnd (fAnd (mkCond (mkCond {} 0).1 1).1 (mkCond {} 0).2 (mkCond (mkCond {} 0).1 1).2).1
+      (fAnd (mkCond (mkCond {} 0).1 1).1 (mkCond {} 0).2 (mkCond (mkCond {} 0).1 1).2).2
+      (mkCond (mkCond {} 0).1 1).2).2.arity = 2 := by decide
+example :
+    (fAnd (fAnd (mkCond (mkCond {} 0).1 1).1 (mkCond {} 0).2 (mkCond (mkCond {} 0).1 1).2).1
+      (mkCond {} 0).2 (mkCond (mkCond {} 0).1 1).2).2.id = 4 := by decide
+
+example : HeapOK (Expr.build {} (.and (.cond 0) (.not (.or (.cond 1) (.const false))))).1 :=
+  (filter_sem heapOK_empty _).1.ok
 
 end Ptk.C04
